@@ -546,7 +546,15 @@ func TestVerifC02Mgr(t *testing.T) {
 				sp.minM = sp.maxM
 			}
 			if r.Chance(1, 3) {
-				sp.weight = fmt.Sprintf("{\"cpu\":%d, \"memory\":\"%d\"}", r.Range(0, 20), int64(r.Range(0, 20))<<30)
+				sp.hasW, sp.wC, sp.wM = true, int64(r.Range(0, 20)), int64(r.Range(0, 20))<<30
+				if r.Chance(1, 6) { // an explicit zero in one dimension
+					if r.Bool() {
+						sp.wC = 0
+					} else {
+						sp.wM = 0
+					}
+				}
+				sp.weight = fmt.Sprintf("{\"cpu\":%d, \"memory\":\"%d\"}", sp.wC, sp.wM)
 			}
 			specs[q.name] = sp
 			apply(q)
@@ -637,7 +645,7 @@ func TestVerifC02Mgr(t *testing.T) {
 					continue
 				}
 				calc := gqm.runtimeQuotaCalculatorMap[pn]
-				for _, res := range []v1.ResourceName{v1.ResourceCPU, v1.ResourceMemory} {
+				for ri, res := range []v1.ResourceName{v1.ResourceCPU, v1.ResourceMemory} {
 					var total int64
 					if pn == extension.RootQuotaName {
 						tq := gqm.totalResourceExceptSystemAndDefaultUsed[res]
@@ -648,6 +656,8 @@ func TestVerifC02Mgr(t *testing.T) {
 					}
 					var ns []*c02Node
 					var sumMinE int64
+					var glueFails [][2]string // reported after the block's ops are on record
+					glue := func(fp, format string, a ...interface{}) { glueFails = append(glueFails, [2]string{fp, fmt.Sprintf(format, a...)}) }
 					for _, q := range kids {
 						qi := gqm.quotaInfoMap[q.name]
 						lr := qi.getLimitRequestNoLock()[res]
@@ -655,11 +665,28 @@ func TestVerifC02Mgr(t *testing.T) {
 						am := qi.CalculateInfo.AutoScaleMin[res]
 						gq := qi.CalculateInfo.Guaranteed[res]
 						rtq := qi.CalculateInfo.Runtime[res]
-						nd := &c02Node{name: q.id, w: getQuantityValue(w, res), req: getQuantityValue(lr, res), min: getQuantityValue(am, res),
-							guarantee: getQuantityValue(gq, res), lend: qi.AllowLentResource, rt: getQuantityValue(rtq, res)}
+						// INPUTS of the oracle and of the model: what the harness declared on the object (weight annotation /
+						// max default, lend label, min, leaf requests), cross-checked against what the manager parsed
+						sp := specs[q.name]
+						nd := &c02Node{name: q.id, w: sp.declWeight(ri), req: c02MgrLimitReq(q, all, specs, curReq, ri), min: getQuantityValue(am, res),
+							guarantee: 0, lend: sp.lend, rt: getQuantityValue(rtq, res)}
+						if pw := getQuantityValue(w, res); pw != nd.w {
+							glue("C02:glue-weight", "quota %s/%s: declared shared weight reads %d (annotation %q, max %d), the manager uses %d", q.name, res, nd.w, sp.weight, sp.declMax(ri), pw)
+						}
+						if pr := getQuantityValue(lr, res); pr != nd.req {
+							glue("C02:glue-request", "quota %s/%s: declared-derived limited request %d, the manager holds %d", q.name, res, nd.req, pr)
+						}
+						if qi.AllowLentResource != sp.lend {
+							glue("C02:glue-lend", "quota %s: lend label %v, the manager holds %v", q.name, sp.lend, qi.AllowLentResource)
+						}
+						if pg := getQuantityValue(gq, res); pg != 0 {
+							glue("C02:glue-guarantee", "quota %s/%s: guaranteed-usage mode is off but the manager holds guarantee %d", q.name, res, pg)
+						}
+						if om := qi.CalculateInfo.Min[res]; getQuantityValue(om, res) != sp.declMin(ri) {
+							glue("C02:glue-min", "quota %s/%s: declared min %d, the manager holds %d", q.name, res, sp.declMin(ri), getQuantityValue(om, res))
+						}
 						ns = append(ns, nd)
-						om := qi.CalculateInfo.Min[res]
-						sumMinE += getQuantityValue(om, res)
+						sumMinE += sp.declMin(ri)
 						// NOTE: the calculator's own node may lag behind the quota object in ways that cannot change the
 						// result (a no-lend quota whose request was raised to its min keeps the old request in the node:
 						// both are <= min, so the runtime is min either way).  The property is about the RESULT, so the
@@ -673,11 +700,11 @@ func TestVerifC02Mgr(t *testing.T) {
 					// scaled minimums: only when the children's minimums do not fit may a minimum differ from the declared one
 					for _, q := range kids {
 						qi := gqm.quotaInfoMap[q.name]
-						om, am := qi.CalculateInfo.Min[res], qi.CalculateInfo.AutoScaleMin[res]
-						o, a := getQuantityValue(om, res), getQuantityValue(am, res)
+						am := qi.CalculateInfo.AutoScaleMin[res]
+						o, a := specs[q.name].declMin(ri), getQuantityValue(am, res)
 						if !scaleMin || total >= sumMinE {
 							if a != o {
-								h.Fail("C02:mgr-scaled-min-wrong", "parent %s/%s: minimums fit (sum %d <= total %d, scaling on=%v) but child %s min %d became %d", pn, res, sumMinE, total, scaleMin, q.name, o, a)
+								glue("C02:mgr-scaled-min-wrong", "parent %s/%s: minimums fit (sum %d <= total %d, scaling on=%v) but child %s min %d became %d", pn, res, sumMinE, total, scaleMin, q.name, o, a)
 							}
 						} else if total > 0 && sumMinE > 0 {
 							ex := new(big.Int).Mul(big.NewInt(total), big.NewInt(o))
@@ -685,7 +712,7 @@ func TestVerifC02Mgr(t *testing.T) {
 							d := new(big.Int).Sub(big.NewInt(a), ex)
 							d.Abs(d)
 							if d.Cmp(big.NewInt(ex.Int64()>>44+1)) > 0 {
-								h.Fail("C02:mgr-scaled-min-wrong", "parent %s/%s: total %d < sum of minimums %d: child %s min %d scaled to %d, exact share %s", pn, res, total, sumMinE, q.name, o, a, ex)
+								glue("C02:mgr-scaled-min-wrong", "parent %s/%s: total %d < sum of minimums %d: child %s min %d scaled to %d, exact share %s", pn, res, total, sumMinE, q.name, o, a, ex)
 							}
 							h.Tag("mgr:min-scaled")
 						}
@@ -695,6 +722,9 @@ func TestVerifC02Mgr(t *testing.T) {
 					}
 					h.Tag(fmt.Sprintf("level-siblings:%d", len(ns)))
 					c02Emit(h, total, ns)
+					for _, g := range glueFails {
+						h.Fail(g[0], "%s", g[1])
+					}
 					c02Oracle(h, total, ns)
 				}
 			}
@@ -708,9 +738,47 @@ func TestVerifC02Mgr(t *testing.T) {
 }
 
 type c02Spec struct {
-	maxC, maxM, minC, minM int64
+	maxC, maxM, minC, minM int64 // cpu in cores, memory in bytes, as handed to CreateQuota
 	lend                   bool
 	weight                 string
+	hasW                   bool
+	wC, wM                 int64 // the annotation's entries (cpu in cores)
+}
+
+// what the object DECLARES, per dimension index (0 = cpu in milli, 1 = memory in bytes)
+func (sp *c02Spec) declMax(i int) int64 { return [2]int64{sp.maxC * 1000, sp.maxM}[i] }
+func (sp *c02Spec) declMin(i int) int64 { return [2]int64{sp.minC * 1000, sp.minM}[i] }
+
+// shared weight: the annotation as a whole unless it is all-zero, else max (CreateQuota's default annotation
+// spells out max)
+func (sp *c02Spec) declWeight(i int) int64 {
+	if sp.hasW && (sp.wC != 0 || sp.wM != 0) {
+		return [2]int64{sp.wC * 1000, sp.wM}[i]
+	}
+	return sp.declMax(i)
+}
+
+// c02MgrLimitReq: what a quota asks its parent for, from the leaf requests the harness handed in:
+// children's limited requests summed (a leaf: its own), raised to min when it does not lend, capped by max.
+func c02MgrLimitReq(q *c02Q, all []*c02Q, specs map[string]*c02Spec, cur map[string][2]int64, i int) int64 {
+	var rq int64
+	if !q.isParent {
+		rq = cur[q.name][i]
+	} else {
+		for _, o := range all {
+			if o.parent == q.name {
+				rq += c02MgrLimitReq(o, all, specs, cur, i)
+			}
+		}
+	}
+	sp := specs[q.name]
+	if !sp.lend && rq < sp.declMin(i) {
+		rq = sp.declMin(i)
+	}
+	if rq > sp.declMax(i) {
+		rq = sp.declMax(i)
+	}
+	return rq
 }
 
 func depthOf(q *c02Q, byName map[string]*c02Q) int {
